@@ -8,7 +8,7 @@
    np.where behaviour of the code at /repo HEAD, [complements_fixed]/[where_fixed] the proposed repairs
    (notes/C14.fix-1.diff, notes/C14.fix-2.diff), [complements_pinned]/[where_pinned] the unrepaired code. *)
 From Coq Require Import ZArith List Bool String.
-From BNP Require Import Base.Prims Model.C14 Proofs.C14.
+From BNP Require Import Base.Prims Model.C14 Proofs.C14 Gen.C14 Bridge.C14.
 Import ListNotations.
 Open Scope Z_scope.
 
@@ -91,6 +91,42 @@ Theorem C14_codon_table :
   forall cd, In cd upper_codons -> exists a, spec_aa cd = Some a /\ model_translate [cd] = Ok [[a]].
 Proof. exact codon_table_thm. Qed.
 Print Assumptions C14_codon_table.
+
+(* Source tie: what translate/gen_c14.py regenerates from /repo on this run (Gen/C14.v) — the `_complements` dict,
+   the assignments that fill the ASCII table, the alphabet comprehension, the strand symbol / np.where operand order /
+   slice bounds of the three strand-aware sites, the amino-acid string, the TCAG base order, the window size, the
+   reversed 3-mer hash weights and the length rules of translation — instantiates the generalised model to exactly the
+   definitions the theorems above are about. *)
+Theorem C14_source_tie :
+  gen_complements = complements_pinned
+  /\ ascii_values_gen gen_ascii_size gen_ascii_fill (flat_map (fun p => gen_ascii_assign (fst p) (snd p)) gen_complements)
+     = ascii_values complements
+  /\ (forall keys alphabet,
+        sequence (gen_new_alphabet (fun c => assoc c keys) alphabet) = map_opt (fun c => assoc c keys) alphabet)
+  /\ (forall a, In a [str "ACGT"; str "ACGTN"] ->
+        match sequence (gen_new_alphabet (fun c => assoc c gen_complements) a) with
+        | None => Err 4 | Some na => alpha_encode a na end = alpha_values complements a)
+  /\ (gen_alpha_lookup_same_encoding = true /\ gen_complement_rewraps_current_shape = true
+      /\ gen_revcomp_reverses_rows = true)
+  /\ (forall keys wh ez ref ivs,
+        model_stranded keys wh true ez ref ivs
+        = model_stranded_site keys wh gen_dna_where gen_dna_slice_start gen_dna_slice_stop ez ref ivs)
+  /\ (forall keys wh ez ref ivs,
+        model_stranded keys wh false ez ref ivs
+        = model_stranded_site keys wh gen_genomic_where (fun a _ => a) (fun _ b => b) ez ref ivs)
+  /\ gen_genes_where = where_site true
+  /\ (str gen_amino_acids = amino_acids /\ str gen_codon_alphabet = tcag
+      /\ map (gen_kmer_weight (len (str gen_codon_alphabet))) (arange gen_window_size) = convolution
+      /\ gen_table_is_code_points = true /\ gen_reshape_is_window_rows = true /\ gen_hash_is_dot = true)
+  /\ (forall rows,
+        model_translate rows
+        = model_translate_gen gen_window_size (str gen_codon_alphabet) (str gen_amino_acids) gen_kmer_weight
+                              gen_window_reversed gen_length_check gen_out_length rows).
+Proof.
+  exact (conj b_complements (conj b_ascii_table (conj b_new_alphabet (conj b_alpha_values (conj b_dna_flags
+        (conj b_stranded_dna (conj b_stranded_genomic (conj b_genes_where (conj b_translate_tables b_translate))))))))).
+Qed.
+Print Assumptions C14_source_tie.
 
 (* ---------- non-vacuity and sanity of the specification tables ---------- *)
 (* the complement exchanges A/T and C/G, fixes N, keeps case, and is an involution on the ten symbols *)
